@@ -3,4 +3,44 @@ UNITS = [
     Unit(name="C01.crc_table", src="units/C01/crc_table.c", functions=["bidib_crc_array"], props=["C01", "C02"],
          no_dfcc=True, unwindset={"spec_crc8_step.0": 9}, unwind_reason="8 CRC bits", replay="units/C01/crc_table.c",
          note="loop-free after unwinding: complete over all 65536 (crc, byte) pairs"),
+    Unit(name="C01.add_to_buffer", src="units/C01/add_to_buffer.c", functions=["bidib_add_to_buffer"], props=["C01"],
+         no_dfcc=True, stubbed_contracts=["bidib_flush_impl", "memcpy"], unwindset={"vp_harness.0": 257, "vp_memcpy_contract.0": 5, "vp_memcpy_contract.1": 257, "vp_memcpy_contract.2": 5}, unwind_reason="constant-bound loops of the harness and of the memcpy contract stub only; bidib_add_to_buffer is loop-free",
+         extra_flags=["--nondet-static"], timeout=300, covers=4, min_obligations=12, replay="units/C01/add_to_buffer.c",
+         note="memcpy of message[0]+1 bytes into the 256-byte buffer for every fill level, capacity 64..255 and message length 4..128"),
+    Unit(name="C01.flush_safety", src="units/C01/flush_safety.c", functions=["bidib_flush_impl"], props=["C01"],
+         loops=[{"function": "bidib_flush_impl", "anchor": r"for \(size_t i = 0; i < buffer_index",
+                 "invariants": "i <= buffer_index && buffer_index == __CPROVER_loop_entry(buffer_index) && 1 <= aux_index && aux_index <= 310 && "
+                               "g_total + aux_index == 1 + i + vp_esc[i] && vp_esc[i] <= i && "
+                               "((g_chunks == 0 && g_total == 0) || (g_chunks == 1 && g_total >= 309 && g_total <= 311)) && "
+                               "(g_total == 0 ? buffer_aux[0] == 0xFE : g_first == 0xFE)",
+                 "assigns": "i, aux_index, crc, __CPROVER_object_whole(buffer_aux), g_total, g_chunks, g_first, g_last",
+                 "decreases": "buffer_index - i"}],
+         unwindset={"vp_harness.0": 257}, unwind_reason="harness prophecy loop over the 256-byte buffer (constant); the loop of bidib_flush_impl carries a loop contract",
+         timeout=300, covers=3, min_obligations=20, replay="units/C01/flush_safety.c",
+         note="every fill level 0..256 and every buffer content; write callback replaced by a checking stub"),
+    Unit(name="C01.encode_with_data", src="units/C01/encoders.c", defines=["VP_WITH_DATA"],
+         functions=["bidib_buffer_message_with_data", "bidib_buffer_message", "bidib_log_send_message"], props=["C01", "C05", "C18"],
+         replace=["bidib_node_state_get_and_incr_send_seqnum", "bidib_extract_address", "bidib_node_try_send", "bidib_add_to_buffer"],
+         loops=[{"function": "bidib_buffer_message_with_data", "anchor": r"for \(size_t i = 1; i <= addr_stack_size",
+                 "invariants": "1 <= i && i <= (unsigned long)addr_stack_size + 1 && message[0] == __CPROVER_loop_entry(message[0]) && "
+                               "(!(i > 1) || message[1] == addr_stack[0]) && (!(i > 2) || message[2] == addr_stack[1]) && (!(i > 3) || message[3] == addr_stack[2]) && (!(i > 4) || message[4] == addr_stack[3])",
+                 "assigns": "i, __CPROVER_object_whole(message)", "decreases": "(unsigned long)addr_stack_size + 1 - i"},
+                {"function": "bidib_buffer_message_with_data", "anchor": r"for \(size_t i = 0; i < data_length",
+                 "invariants": "i <= data_length && message[0] == message_length - 1 && (!(1 <= addr_stack_size) || message[1] == addr_stack[0]) && (!(2 <= addr_stack_size) || message[2] == addr_stack[1]) && (!(3 <= addr_stack_size) || message[3] == addr_stack[2]) && (!(4 <= addr_stack_size) || message[4] == addr_stack[3]) && message[addr_stack_size + 1] == seqnum && message[addr_stack_size + 2] == msg_type && "
+                               "(!(g_w >= (unsigned long)addr_stack_size + 3 && g_w < (unsigned long)addr_stack_size + 3 + i) || message[g_w] == data[g_w - addr_stack_size - 3])",
+                 "assigns": "i, __CPROVER_object_whole(message)", "decreases": "data_length - i"}],
+         remove_bodies=["bidib_flush_impl", "bidib_add_to_buffer", "bidib_auto_flush", "bidib_flush", "bidib_buffer_message_without_data"],
+         timeout=300, covers=2, min_obligations=20, replay=None,
+         note="every address depth 0..3, type < 0x80, payload length up to the protocol maximum, numbering on/off"),
+    Unit(name="C01.encode_without_data", src="units/C01/encoders.c",
+         functions=["bidib_buffer_message_without_data", "bidib_buffer_message", "bidib_log_send_message"], props=["C01", "C05", "C18"],
+         replace=["bidib_node_state_get_and_incr_send_seqnum", "bidib_extract_address", "bidib_node_try_send", "bidib_add_to_buffer"],
+         loops=[{"function": "bidib_buffer_message_without_data", "anchor": r"for \(int i = 1; i <= addr_stack_size",
+                 "invariants": "1 <= i && i <= addr_stack_size + 1 && message[0] == __CPROVER_loop_entry(message[0]) && "
+                               "(!(i > 1) || message[1] == addr_stack[0]) && (!(i > 2) || message[2] == addr_stack[1]) && (!(i > 3) || message[3] == addr_stack[2]) && (!(i > 4) || message[4] == addr_stack[3])",
+                 "assigns": "i, __CPROVER_object_whole(message)", "decreases": "addr_stack_size + 1 - i"}],
+         remove_bodies=["bidib_flush_impl", "bidib_add_to_buffer", "bidib_auto_flush", "bidib_flush", "bidib_buffer_message_with_data"],
+         timeout=300, covers=2, min_obligations=20, replay=None),
+    Unit(name="C01.capacity", src="units/C01/capacity.c", functions=["bidib_state_packet_capacity"], props=["C01"],
+         no_dfcc=True, covers=2, min_obligations=4, replay="units/C01/capacity.c", extra_flags=["--nondet-static"]),
 ]
